@@ -393,13 +393,26 @@ Definition find_groups (pat : str) (ngroups : nat) : option (str * nat) :=
 Definition count_groups (ps : list piece) : nat :=
   length (filter (fun p => match p with PGrp _ => true | _ => false end) ps).
 
-Record pathm := mkPathm { pm_rx : regex; pm_tpl : option (str * nat) }.
+Record pathm := mkPathm {
+  pm_rx : regex;
+  pm_tpl : option (str * nat);
+  pm_text : str;    (* the pattern as written *)
+  pm_whole : bool   (* self._whole: built from a pattern string, not a precompiled re.Pattern *)
+}.
 
 (* PathMatches(pattern_string) *)
 Definition compile_path (pat : str) : option pathm :=
   let p := add_dollar pat in
   match rx_parse p with
-  | Some rx => Some (mkPathm rx (find_groups p (count_groups (rx_pieces rx))))
+  | Some rx => Some (mkPathm rx (find_groups p (count_groups (rx_pieces rx))) pat true)
+  | None => None
+  end.
+
+(* PathMatches(re.compile(pattern)): the pattern is used as it is (no "$" appended),
+   match() uses Pattern.match, _find_groups works on regex.pattern *)
+Definition compile_path_re (pat : str) : option pathm :=
+  match rx_parse pat with
+  | Some rx => Some (mkPathm rx (find_groups pat (count_groups (rx_pieces rx))) pat false)
   | None => None
   end.
 
@@ -459,8 +472,13 @@ Definition unq (s : str) : option (list N) :=
 (* PathMatches.match (string pattern): MMiss = None; MHit = path_args *)
 Inductive mres := MMiss | MErr | MHit (args : list (list N)).
 
+(* the groups found by fullmatch (string pattern) or match (precompiled pattern) *)
+Definition pm_caps (pm : pathm) (path : str) : option (list str) :=
+  if pm_whole pm then whole_match (pm_rx pm) path
+  else match rx_match (pm_rx pm) path with Some (caps, _) => Some caps | None => None end.
+
 Definition pm_match (pm : pathm) (path : str) : mres :=
-  match whole_match (pm_rx pm) path with
+  match pm_caps pm path with
   | None => MMiss
   | Some caps => match map_opt unq caps with Some a => MHit a | None => MErr end
   end.
@@ -603,14 +621,31 @@ Definition ascii_lower (c : N) : N := if (65 <=? c) && (c <=? 90) then c + 32 el
 Fixpoint before_q (s : str) : str :=
   match s with [] => [] | c :: r => if c =? 63 then [] else c :: before_q r end.
 
-(* HTTPServerRequest(uri=…, Host: host) for a Host value without port *)
+(* httputil.split_host_and_port(host)[0]: `^(.+):(\d+)$` — only the last colon can
+   work; non-empty host part, non-empty all-digit port (ASCII hosts) *)
+Fixpoint span58 (s acc : str) : option (str * str) :=
+  match s with
+  | [] => None
+  | c :: r => if c =? 58 then Some (rev acc, r) else span58 r (c :: acc)
+  end.
+Definition split_port (h : str) : str :=
+  match span58 (rev h) [] with
+  | Some (pr, ar) =>                (* reversed port, reversed host part *)
+      match pr, ar with
+      | _ :: _, _ :: _ => if forallb is_digit pr then rev ar else h
+      | _, _ => h
+      end
+  | None => h
+  end.
+
+(* HTTPServerRequest(uri=…, Host: host): host_name = split_host_and_port(host.lower())[0] *)
 Definition mk_request (host uri : str) (xreal : bool) : request :=
-  mkReq (map ascii_lower host) (before_q uri) xreal.
+  mkReq (split_port (map ascii_lower host)) (before_q uri) xreal.
 
 (* ------------------------------------------------------------------ *)
 (* Raw configuration (pattern strings), as handed to Application          *)
 (* ------------------------------------------------------------------ *)
-Inductive mkind := KPath | KHost | KAny.
+Inductive mkind := KPath | KHost | KAny | KPathRe (* PathMatches(re.compile(pat)) *).
 Inductive rrule :=
 | RRLeaf (k : mkind) (pat : str) (name : option str) (h : N)
 | RRNode (k : mkind) (pat : str) (name : option str) (sub : list rrule).
@@ -620,6 +655,7 @@ Definition compile_matcher (k : mkind) (pat : str) : option matcher :=
   | KAny => Some MAny
   | KHost => match compile_host pat with Some r => Some (MHost r) | None => None end
   | KPath => match compile_path pat with Some p => Some (MPath p) | None => None end
+  | KPathRe => match compile_path_re pat with Some p => Some (MPath p) | None => None end
   end.
 
 Fixpoint compile_rule (r : rrule) : option rule :=
